@@ -203,7 +203,10 @@ def run_shard(ctx):
         if len(core["nodes"]) > 6:
             continue
         doms = random_domains(rng, core, q, True) if i % 5 else {}
-        gd, pad = gg.embed_wide(core, rng, rng.randint(10, 14))
+        if nw % 8 == 7:
+            gd, pad = gg.embed_wide(core, rng, rng.choice([64, 65, 100]), p_di=0.02, p_bi=0.01)
+        else:
+            gd, pad = gg.embed_wide(core, rng, rng.randint(10, 14))
         nw += 1
         run_case(ctx, gd, q, doms, cards={w: 1 for w in pad})
     ctx.extras["wide_graphs"] = nw
